@@ -44,6 +44,9 @@ def compare(case, src, out, rec=None):
     oname = {t["name"]: i for i, t in enumerate(ot)}
     if len(oname) != len(ot):
         dup = [t["name"] for t in ot if [x["name"] for x in ot].count(t["name"]) > 1]
+        src_names = [t["name"] for t in st]
+        if any(src_names.count(n) > 1 for n in dup):
+            return 0  # the source itself re-uses a tensor name: operators cannot be matched by their result's name, nothing is decided for this case
         raise Violation("C11/output/duplicate-tensor-names", "output model has duplicate tensor names %s" % sorted(set(dup))[:4], case)
     # producers in the output model
     producer = {}
@@ -180,7 +183,13 @@ def oracle(case, rec=None):
     if art is None:
         return
     src = vmodel.load(fbwrite.build(case["spec"]))
-    rich = compare(case, src, art.model, rec)
+    try:
+        rich = compare(case, src, art.model, rec)
+    except Violation as v:
+        import constructs
+
+        v.tags = tuple(v.tags) + tuple(constructs.tags(case["spec"], case["cfg"]))
+        raise
     r = forkcall.forkcall(_reader_child, res["out_model"], 120)
     if r[0] != "ok":
         raise Violation("C11/file/vela-reader", "Vela's own reader cannot read the output model: %s" % (r[1:4],), case)
@@ -196,6 +205,24 @@ def strategy(profile):
 
     @st.composite
     def case(draw):
+        if profile == "corners":
+            # corner features that leave the model compilable: what the file says about interface tensors and CPU-resident operators must come back verbatim also when it is
+            # unusual (a scale without zero point, no quantisation, shape signatures, duplicate names, dead operators, an input that is also an output, variable flags)
+            import corners
+
+            spec = draw(tflgen.network(draw(st.sampled_from(["cpumix", "wide", "npu"])), max_ops=5, big=False))
+            import copy
+
+            spec = copy.deepcopy(spec)
+            done = []
+            for _ in range(draw(st.integers(1, 2))):
+                f = draw(st.sampled_from([corners.shape_signature, corners.dead_op, corners.output_is_input, corners.no_quant, corners.self_binary, corners.scale_only,
+                                          corners.scale_only, corners.wide_dtype, corners.custom_tail]))
+                r = f(spec, draw, st)
+                if r:
+                    done.append(r)
+            spec["corners"] = done
+            return dict(kind="e2e", spec=spec, cfg=draw(tflgen.config()))
         return dict(kind="e2e", spec=draw(tflgen.network(profile, max_ops=7, big=False)), cfg=draw(tflgen.config()))
 
     return case()
@@ -208,7 +235,7 @@ def run(ctx, arg, rec):
 
 def parts(ctx):
     q = ctx.quick
-    return [Part("cpumix%02d" % i, run, (i, 45 if q else 1800, "cpumix")) for i in range(12)] + [Part("wide%02d" % i, run, (i, 40 if q else 900, "wide")) for i in range(4)]
+    return [Part("cpumix%02d" % i, run, (i, 45 if q else 1800, "cpumix")) for i in range(12)] + [Part("wide%02d" % i, run, (i, 40 if q else 900, "wide")) for i in range(4)] + [Part("corners%02d" % i, run, (i, 40 if q else 900, "corners")) for i in range(2)]
 
 
 def replay(ctx, case):
